@@ -358,6 +358,11 @@ def syncCreateTasks (s : Sys) (jo : JobObj) (rj : Job) (tasks : List Task) : Sys
 def markDeleted (rj : Job) (names : List String) (f : TaskRef → TaskRef) : Job :=
   { rj with status := { rj.status with tasks := rj.status.tasks.map (fun r => if names.contains r.name then f r else r) } }
 
+/-- the TaskRef `handlePendingTasks` judges a task by: the one recorded in the Job's status
+(`jobutil.FindTaskRef(rj, task)`: the FIRST ref with the task's name), which retains the timestamps the
+task no longer reports by itself; the task's own `GetTaskRef()` when none is recorded -/
+def pendRef (rj : Job) (t : Task) : TaskRef := (findTaskRef rj t.name).getD t.ref
+
 /-- `handlePendingTasks` -/
 def handlePendingTasks (s : Sys) (jo : JobObj) (rj : Job) (tasks : List Task) : Sys × Option Job :=
   match getPendingTimeout rj s.cfg with
@@ -366,7 +371,7 @@ def handlePendingTasks (s : Sys) (jo : JobObj) (rj : Job) (tasks : List Task) : 
     if pendingTimeout ≤ 0 then (s, some rj)
     else
       let step := fun (acc : Sys × List Task) (t : Task) =>
-        let ref := t.ref
+        let ref := pendRef rj t
         if ref.finishTimestamp.isSome then acc
         else if ref.runningTimestamp.isSome then acc
         else
